@@ -54,7 +54,7 @@ func stageRun(env *core.Env, rep *core.Report) int {
 			add("crash-or-hang", "taskctl crashed or did not return within 30 s")
 		case !has("start"):
 			core.Broken("stageRun: the timed stage did not start (exit %d): %s", res.Exit, tail(res.Stderr, 300))
-		case has("end") || took > 5*time.Second:
+		case has("end"):
 			add("overrunning-command-not-terminated", fmt.Sprintf("the overrunning job was not cut (log %v, the run took %.1f s)", lines, took.Seconds()))
 		case has("second"):
 			add("command-started-after-expiry", fmt.Sprintf("a later command of the task ran after the expiry (log %v)", lines))
